@@ -82,6 +82,14 @@ class WrapGreenletPass( BasePass ):
         if remap( pair ) != pair:
           objs[ remap( pair ) ] |= objs.pop( pair )
 
+    # ... and so are the callers of each method and the constraints of the
+    # top level callees (used by OpenLoopCLPass)
+    if hasattr( top._dag, 'method_blks' ):
+      for method, blks in top._dag.method_blks.items():
+        top._dag.method_blks[ method ] = { blk_greenlet_mapping.get( x, x ) for x in blks }
+    if hasattr( top._dag, 'top_level_callee_constraints' ):
+      top._dag.top_level_callee_constraints = { remap(p) for p in top._dag.top_level_callee_constraints }
+
     top._dag.final_upblks    = new_upblks
     top._dag.all_constraints = new_constraints
     top._dag.blk_greenlet_mapping = blk_greenlet_mapping
